@@ -20,6 +20,10 @@ func (ex *Exec) wantTerms(s *State) []*Term {
 		out = append(out, t)
 	}
 	for _, in := range s.inputs {
+		if in.Wide != nil {
+			add(in.Wide)
+			continue
+		}
 		for _, t := range in.Terms {
 			add(t)
 		}
@@ -51,18 +55,23 @@ func realUF(t *Term, args []*big.Int) *big.Int {
 // digest-valued inputs that the model equates with hash applications to real SHA-256.
 func (ex *Exec) streamFromModel(s *State, model map[int]*big.Int) map[string]interface{} {
 	env := map[string]*big.Int{}
-	for _, in := range s.inputs {
-		for _, t := range in.Terms {
-			if t.Op == OpVar {
-				if v, ok := model[t.ID]; ok {
-					env[t.Name] = v
-				} else {
-					env[t.Name] = big.NewInt(0)
-				}
+	setVar := func(t *Term) {
+		if t != nil && t.Op == OpVar {
+			if v, ok := model[t.ID]; ok {
+				env[t.Name] = v
+			} else {
+				env[t.Name] = big.NewInt(0)
 			}
 		}
 	}
-	// hash lifting
+	for _, in := range s.inputs {
+		setVar(in.Wide)
+		for _, t := range in.Terms {
+			setVar(t)
+		}
+	}
+	// hash lifting: an input digest (or a 32-byte window of an input buffer) that the model
+	// equates with a hash application is recomputed as the real SHA-256 of the lifted argument
 	byVal := map[string]int{}
 	for i, h := range s.hashes {
 		if v, ok := model[h.App.ID]; ok {
@@ -70,12 +79,21 @@ func (ex *Exec) streamFromModel(s *State, model map[int]*big.Int) map[string]int
 		}
 	}
 	type lift struct {
+		wide *Term
 		vars []*Term
 		app  int
 	}
 	var lifts []lift
 	if len(byVal) > 0 {
 		for _, in := range s.inputs {
+			if in.Wide != nil {
+				if in.Wide.W == 256 {
+					if j, ok := byVal[env[in.Wide.Name].Text(16)]; ok {
+						lifts = append(lifts, lift{wide: in.Wide, app: j})
+					}
+				}
+				continue
+			}
 			if len(in.Terms) < 32 {
 				continue
 			}
@@ -107,6 +125,13 @@ func (ex *Exec) streamFromModel(s *State, model map[int]*big.Int) map[string]int
 		for _, l := range lifts {
 			h := s.hashes[l.app]
 			real := ex.tt.Eval(h.App, env, realUF, memo)
+			if l.wide != nil {
+				if env[l.wide.Name].Cmp(real) != 0 {
+					env[l.wide.Name] = real
+					changed = true
+				}
+				continue
+			}
 			rb := make([]byte, 32)
 			b := real.Bytes()
 			copy(rb[32-len(b):], b)
@@ -123,29 +148,17 @@ func (ex *Exec) streamFromModel(s *State, model map[int]*big.Int) map[string]int
 		}
 	}
 	stream := map[string]interface{}{}
+	memo := map[int]*big.Int{}
 	for _, in := range s.inputs {
 		switch in.Kind {
 		case "bytes", "digest":
 			bs := make([]byte, len(in.Terms))
 			for i, t := range in.Terms {
-				if t.Op == OpVar {
-					bs[i] = byte(env[t.Name].Uint64())
-				} else if t.IsConst() {
-					bs[i] = byte(t.U64())
-				}
+				bs[i] = byte(ex.tt.Eval(t, env, realUF, memo).Uint64())
 			}
 			stream[in.Key] = "x:" + hex.EncodeToString(bs)
 		default:
-			t := in.Terms[0]
-			var v *big.Int
-			if t.Op == OpVar {
-				v = env[t.Name]
-			} else if t.IsConst() {
-				v = t.Val
-			} else {
-				v = big.NewInt(0)
-			}
-			stream[in.Key] = v.String()
+			stream[in.Key] = ex.tt.Eval(in.Terms[0], env, realUF, memo).String()
 		}
 	}
 	return stream
